@@ -422,3 +422,18 @@ func lastLinesN(s string, n int) string {
 func readFile(p string) ([]byte, error) { return os.ReadFile(p) }
 
 func jsonUnmarshal(data []byte, v interface{}) error { return json.Unmarshal(data, v) }
+
+// extractResult returns the JSON document a worker sub-command printed behind the result marker
+// (the last one, should the code under test have printed something similar itself).
+func extractResult(out []byte) []byte {
+	const marker = "VERIF-RESULT-7f3a9c "
+	i := bytes.LastIndex(out, []byte(marker))
+	if i < 0 {
+		return out
+	}
+	rest := out[i+len(marker):]
+	if j := bytes.IndexByte(rest, '\n'); j >= 0 {
+		rest = rest[:j]
+	}
+	return rest
+}
